@@ -90,7 +90,7 @@ xml_get_val_arr(const uint8_t *xml_data, size_t xml_data_size,
 	ssize_t level = 0;
 
 	if (NULL != next_pos && xml_data <= (*next_pos) &&
-	    (xml_data + xml_data_size) > (*next_pos)) {
+	    (xml_data + xml_data_size) >= (*next_pos)) {
 		TagEnd = (*next_pos);
 		cur_tag = ((TagEnd == xml_data) ? 0 : (tag_arr_count - 1));
 	} else { /* Not set or Out of range. */
@@ -542,7 +542,7 @@ xml_get_val_ns_arr(const uint8_t *xml_data, size_t xml_data_size,
 
 	memset(ret_ns_size, 0x00, (sizeof(size_t) * tag_arr_count));
 	if (NULL != next_pos && xml_data <= (*next_pos) &&
-	    (xml_data + xml_data_size) > (*next_pos)) {
+	    (xml_data + xml_data_size) >= (*next_pos)) {
 		TagEnd = (*next_pos);
 		cur_tag = ((TagEnd == xml_data) ? 0 : (tag_arr_count - 1));
 	} else { /* Not set or Out of range. */
